@@ -129,11 +129,16 @@ EXTRA_PROPS = [("Properties/C09Load.v", "pins/C09Load.json")]
 
 def known_class(f):
     """key of the known-finding class an oracle FAIL line belongs to (matched narrowly), or None"""
-    if f["kind"] == "c11-load" and " R ERR InvalidFileMerge " in f["line"]:
+    # the known rollback class: ONLY memberships that were made explicit (the oracle names the classes of changes:
+    # elements, values, order, membership, index, local) — elements left behind or attributes changed are not in it
+    if f["kind"] == "c11-load" and " R ERR InvalidFileMerge " in f["line"] and " changed=local " in f["line"]:
         return "C11-load-merge-rollback"
     if f["kind"] in ("missing", "extra", "duplicate", "membership", "values", "file-content", "order-dependent") \
             and CONTENT_KEYED.search(f["line"]):
         return "C09-unnamed-below-splittable"
+    # shared elements that carry different attributes in different files: the attributes of the file loaded first win
+    if f["kind"] in ("attrs", "file-attrs", "order-attrs"):
+        return "C09-attributes-first-loaded-wins"
     return None
 
 
@@ -512,7 +517,7 @@ def run_replay(ctx, avh, obj):
         print("implementation:", impl, "\nmodel:", model)
         ctx.oblige("replay:correspondence", impl == model and impl, str(first_diff_of_script(avh, text)))
         rc, out, _ = lib.harness_run(avh, ["merge", "c11", DUMP, p])
-        bad = [l for l in out.split("\n") if l.startswith("C11FAIL") and "InvalidFileMerge" not in l]
+        bad = [l for l in out.split("\n") if l.startswith("C11FAIL") and not ("InvalidFileMerge" in l and " changed=local " in l)]
         ctx.oblige("replay:c11-load", not bad, "\n".join(bad[:4]))
     return conclude(ctx, prop_fail, [], is_replay=True)
 
